@@ -1,1 +1,135 @@
-From Asynkit Require Import Base.Prelude Coro.Tree Coro.Native Coro.Monitor Coro.MonitorProofs.
+(* C07 - Monitor out-of-band channel: exactly once, in order, both directions.
+
+   Vocabulary (Coro/Monitor.v, Coro/MonitorSpec.v):
+   * a body is an [mtree]: Ret / Raise / Eff / TSusp y k (a real suspension: the awaited
+     future or token y) / TOob m d k (`r = await m.oob(d)`); [emb t : coro] is what the body
+     really does at an oob node: read Monitor.state (cell m of the store), raise "Monitor
+     not active" or write -1 and yield d.  [no_lost t]: no oob() whose yield is swallowed
+     by a close() of the frame that issued it (the designed-error carve-out).
+   * [call_run m s o cl] / [call_resume m cl s k i]: the model of one call
+     cl in {aawait v, athrow e, aclose, start, try_await v sentinel} on the coroutine object
+     o through monitor m in store s, up to its end [MEnd o' r] (r = RVal v | RExc e;
+     out-of-band data is RExc (OOBData d)) or to a real suspension [MSusp y k] that is
+     yielded outward, and of the driver's answer i to such a suspension.  The relay decides
+     "out-of-band or real" by looking at the flag (state = -1), as monitor.py does.
+   * [call_k m o cl kont]: the same call as the tree of the CALLER's code
+     (`r = await m.<cl>(o)` followed by kont o' r), used for nested monitors.
+   * [msession m s o h]: a whole driver history h = list of (call, inputs given at the
+     real suspensions the call meets); per step: the body's events, what came out, the store.
+   * [tsession]: the reference: the same history run on the mtree itself, where an
+     out-of-band datum is, by definition, what a TOob node of m yields, and a real suspension
+     is what any other node yields. *)
+From Asynkit Require Import Base.Prelude Coro.Tree Coro.Native Coro.Monitor Coro.MonitorSpec
+  Coro.MonitorProofs.
+Open Scope Z_scope.
+
+(* For every body, store and driver history, what the driver observes through the real
+   mechanism (state flag) is what the explicit oob nodes prescribe: each oob node reached
+   ends exactly one call with OOBData d, in program order; every real suspension is
+   yielded outward as itself and never as OOBData; the body's Ret / Raise ends the final
+   call; the stores (Monitor.state) agree after every step. *)
+Theorem C07_exactly_once_in_order : forall m t s h,
+  no_lost t -> msession m s (New (emb t)) h = tsession m s (TNew t) h.
+Proof. exact msession_tsession. Qed.
+Print Assumptions C07_exactly_once_in_order.
+
+(* Both directions: when the body reaches an oob node of the driving monitor the call ends
+   with OOBData d and the object left behind is that node's continuation k; the value of
+   the next aawait(v') is what that oob() returns (k (Send v')), the exception of athrow(e)
+   is raised from it (k (Throw e)). *)
+Theorem C07_answers : forall m s t evs s1 d k,
+  mstate s m = 0 -> trun (setcell s m 1) t = (evs, s1, TsOob m d k) ->
+  tcall_run m s (TNew t) (CAwait VNone) =
+    (evs, setcell (setcell s1 m 1) m 0, GEnd (TAt k) (RExc (OOBData d)))
+  /\ (forall v', tfirst_call (TAt k) (call_input (CAwait v')) = inl (k (Send v')))
+  /\ (forall e, tfirst_call (TAt k) (call_input (CThrow e)) = inl (k (Throw e))).
+Proof. exact oob_then_answer. Qed.
+Print Assumptions C07_answers.
+
+(* The tree of a caller that awaits a Monitor call runs exactly as call_run / call_resume
+   say (all bodies, all continuations of the caller, all stores). *)
+Theorem C07_caller_tree : forall m o cl s kont,
+  run s (call_k m o cl kont) = run_of_call m cl kont (call_run m s o cl)
+  /\ forall k i, run s (call_cont m cl k kont i) = run_of_call m cl kont (call_resume m cl s k i).
+Proof. intros; split; [apply call_k_run | intros; apply call_cont_run]. Qed.
+Print Assumptions C07_caller_tree.
+
+(* After every call that returns or raises -- also when the relay is closed at a real
+   suspension -- state = 0 (ANY coroutine body, not only [emb t]); a call made while
+   state <> 0 gets RuntimeError("Monitor cannot be re-entered") and leaves the store, the
+   driven object and (no events) the use in progress untouched. *)
+Theorem C07_idle_after : forall m s o cl,
+  (forall evs s' o' r, mstate s m = 0 ->
+     call_run m s o cl = (evs, s', MEnd o' r) -> mstate s' m = 0)
+  /\ (forall k i evs s' o' r, call_resume m cl s k i = (evs, s', MEnd o' r) -> mstate s' m = 0)
+  /\ (forall k, exists evs s' o' r,
+        resume_run m s k (Throw GeneratorExit) = (evs, s', MEnd o' r) /\ mstate s' m = 0)
+  /\ (mstate s m <> 0 -> skips cl o = false ->
+        call_run m s o cl = ([], s, MEnd o (RExc (RuntimeError RtMonitorReentered)))
+        /\ forall kont, run s (call_k m o cl kont)
+                        = run s (kont o (RExc (RuntimeError RtMonitorReentered)))).
+Proof.
+  intros m s o cl. repeat split.
+  - intros; eapply call_run_idle; eauto.
+  - intros; eapply call_resume_idle; eauto.
+  - intros; apply resume_run_close_ends.
+  - apply call_run_reentered; assumption.
+  - intros; apply call_k_reentered; assumption.
+Qed.
+Print Assumptions C07_idle_after.
+
+(* Monitors A (outer) and B (inner), both active, a body under B's relay under A's relay:
+   an oob of A passes through B untouched (B stays active, the answer will be forwarded to
+   the oob through B's relay) and ends A's call with OOBData d; an oob of B is consumed by B
+   (A only sees what B's driver does next); a real suspension passes through both. *)
+Theorem C07_nested : forall A B fa fb s kontB, A <> B -> mstate s B = 1 ->
+  (forall d k, mstate s A = 1 ->
+     relay_run A fa s (relay_k B fb (emb (TOob A d k)) kontB) =
+     ([], setcell (setcell (setcell s A (-1)) A 1) A 0,
+      MEnd (Suspended (relay_cont B (kemb k) kontB)) (RExc (OOBData d))))
+  /\ (forall d k,
+     relay_run A fa s (relay_k B fb (emb (TOob B d k)) kontB) =
+     relay_run A fa (setcell (setcell (setcell s B (-1)) B 1) B 0)
+               (kontB (Suspended (kemb k)) (RExc (OOBData d))))
+  /\ (forall y k, mstate s A = 1 ->
+     relay_run A fa s (relay_k B fb (emb (TSusp y k)) kontB) =
+     ([], s, MSusp y (relay_cont B (kemb k) kontB)))
+  /\ (forall k i, i <> Throw GeneratorExit ->
+     relay_cont B (kemb k) kontB i = relay_k B false (emb (k i)) kontB).
+Proof.
+  intros A B fa fb s kontB Hne HB. repeat split; intros.
+  - apply nested_outer_oob; assumption.
+  - apply nested_inner_oob; assumption.
+  - apply nested_real; assumption.
+  - apply relay_cont_forward; assumption.
+Qed.
+Print Assumptions C07_nested.
+
+(* start / try_await / aclose are aawait / athrow with the result mapped: start returns the
+   datum of the OOBData and turns a plain return into RuntimeError; try_await replaces
+   OOBData by the sentinel; aclose does nothing on a finished coroutine, otherwise throws
+   GeneratorExit, absorbs GeneratorExit / a return, and reports an oob() issued while
+   closing as RuntimeError; the same mapping applies when the call ends after real
+   suspensions. *)
+Theorem C07_helpers : forall m s o,
+  call_run m s o CStart =
+    map_stop (fun x => match x with
+                       | RExc (OOBData d) => RVal d
+                       | RVal _ => RExc (RuntimeError (RtOther 99))
+                       | _ => x end) (call_run m s o (CAwait VNone))
+  /\ (forall v sen, call_run m s o (CTry v sen) =
+        map_stop (fun x => match x with RExc (OOBData _) => RVal sen | _ => x end)
+                 (call_run m s o (CAwait v)))
+  /\ call_run m s Finished CClose = ([], s, MEnd Finished (RVal VNone))
+  /\ (o <> Finished -> call_run m s o CClose =
+        map_stop (fun x => match x with
+                           | RExc GeneratorExit | RVal _ => RVal VNone
+                           | RExc (OOBData _) => RExc (RuntimeError RtIgnoredGenExit)
+                           | _ => x end) (call_run m s o (CThrow GeneratorExit)))
+  /\ (forall cl k i, call_resume m cl s k i = map_stop (post cl) (resume_run m s k i)).
+Proof.
+  intros m s o. destruct (helpers_first m s o) as (H1 & H2 & H3 & H4).
+  split; [exact H1|]. split; [exact H2|]. split; [exact H3|]. split; [exact H4|].
+  intros; apply helpers_resume.
+Qed.
+Print Assumptions C07_helpers.
